@@ -38,6 +38,10 @@ func init() {
 	})
 }
 
+// c15Sel is the selector the generated programs route on and the client sends: a token that no error text of
+// the library contains by accident.
+const c15Sel = "zq7"
+
 func genSym(t interface{ Range(int, int) int }, pfx string) string {
 	n := t.Range(1, 10)
 	return pfx + strings.Repeat("x", n)[:n-1] + "q"
@@ -86,11 +90,11 @@ func runC15(c *core.Ctx) *core.Outcome {
 	code = append(code, app.Inst{Op: app.INCMP, A: "nb", B: "zz"})
 	if t.Chance(1, 2) {
 		if t.Chance(1, 2) {
-			code = append(code, app.Inst{Op: app.INCMP, A: "nc", B: "1"})
+			code = append(code, app.Inst{Op: app.INCMP, A: "nc", B: c15Sel})
 		} else {
 			// the matching line leads to a node WITHOUT code, so nothing is appended behind the
 			// following INCMP line, which is decoded (and skipped) while a match is held
-			code = append(code, app.Inst{Op: app.INCMP, A: "ne", B: "1"})
+			code = append(code, app.Inst{Op: app.INCMP, A: "ne", B: c15Sel})
 			code = append(code, app.Inst{Op: app.INCMP, A: "nb", B: "9"})
 			o.Probes["incmp_after_matching_line"]++
 		}
@@ -169,9 +173,9 @@ func runC15(c *core.Ctx) *core.Outcome {
 		okRequests := 0
 		var lastErr string
 		moved := false
-		reqs := [][]byte{nil, []byte("1")}
+		reqs := [][]byte{nil, []byte(c15Sel)}
 		if priorFail {
-			reqs = [][]byte{nil, []byte("0"), []byte("1")} // catch node, back to the root record, on
+			reqs = [][]byte{nil, []byte("0"), []byte(c15Sel)} // catch node, back to the root record, on
 		}
 		for ri, in := range reqs {
 			st := s.Request(in, false)
@@ -180,7 +184,9 @@ func runC15(c *core.Ctx) *core.Outcome {
 				// whatever else happens, a decoding failure must not come back as a successful request
 				// whose page merely quotes it: the only error texts a page of this application may carry
 				// are the failed external call and the unmatched input
-				if pfx := app.ParsePage(st.Out).Prefix; pfx != "" && !strings.HasPrefix(pfx, "error "+sa+":") && !strings.HasPrefix(pfx, "invalid input: ") {
+				// (recognised by what they show, not by their wording: the failed call's line names the symbol, the
+				// unmatched input's line shows the input - a token no decoding error text contains)
+				if pfx := app.ParsePage(st.Out).Prefix; pfx != "" && !strings.Contains(pfx, sa) && !(len(in) > 0 && strings.Contains(pfx, string(in))) {
 					addV("vm-decode-error-shown-as-page", map[string]string{"why": derr.Why}, "the record damaged by %s is malformed at instruction %d (%s); request %d reports success and its page carries the error text %q (record %x)", desc, derr.Inst, derr.Why, ri, pfx, b)
 					return
 				}
@@ -200,7 +206,7 @@ func runC15(c *core.Ctx) *core.Outcome {
 				// the malformed tail must not come back as pending code: whatever the client sends next, the
 				// session does not go on from inside the instruction that was just refused
 				if derr != nil && !hasNoop && !moved {
-					nx := s.Request([]byte("1"), false)
+					nx := s.Request([]byte(c15Sel), false)
 					o.Counts["requests"]++
 					if nx.Panic == "" && nx.ExecErr == "" && nx.Cont {
 						addV("vm-resumes-after-malformed-instruction", map[string]string{"why": derr.Why}, "the record damaged by %s is malformed at instruction %d (%s); request %d failed with %q, but the next request on the same engine succeeded (output %s): execution went on behind the rejected instruction (record %x)", desc, derr.Inst, derr.Why, ri, st.ExecErr, short(nx.Out), b)
